@@ -43,6 +43,7 @@ RULES = {
     "R8.5": "the step's measure is the documented measure of (sweep result, pre-sweep self.values), for each convergence_test value (dispatch R8.7)",
     "R8.6": "no write to a loop-carried attribute before the loop; post-loop writes to one only under the convergence guard",
     "R8.9": "every call solve(k), k > 0, runs the sweep loop: no path from the entry of solve() to a normal return avoids the loop (an early return on remembered state - a `converged` flag, a cached result - stops before the documented stopping rule has been evaluated on the state the solver holds NOW, which a restore / load_checkpoint / assignment may have replaced); a guard on the limit parameter alone is outside the property (positive limits)",
+    "R8.10": "the epsilon of every threshold is the configured one: the constructor assigns self.epsilon from config.epsilon itself (no scaling, rounding or fallback in between), as C02 R2.7 requires of gamma",
     "R8.8": "initial values are problem.initial_value(state_space[n]) for every state n; the counter starts at 0",
 }
 ASSUMPTIONS = [
@@ -67,7 +68,9 @@ def run(ctx: Context, col) -> None:
         part(_no_bypass, ctx, cls, loop, col)
         part(_measure, ctx, cls, col)
         part(_initial, ctx, cls, col)
+    part(_epsilon_source, ctx, col)
     part.finish()
+    col.floor("R8.10", 1)
     col.floor("R8.1", 10)
     col.floor("R8.2", 5)
     col.floor("R8.3", 5)
@@ -678,3 +681,31 @@ def _no_bypass(ctx, cls, loop: SolveLoop, col, rule="R8.9"):
                 "solve(k) then performs no sweep and evaluates no stopping rule on the state the solver holds now (after restore / "
                 "load_checkpoint / an assignment of values or policy the remembered condition is stale)",
                 text="return bypasses the loop")
+
+
+# ------------------------------------------------------------------ epsilon source
+def _epsilon_source(ctx, col):
+    from ..effects import is_self_attr
+    from ..interp import Frame, Interp, Unsupported
+    from ..terms import show_norm
+
+    sol = ctx.ct.get("Solver")
+    sites = []
+    for owner in [sol] + ctx.ct.subclasses(sol):
+        for fn in owner.methods.values():
+            for st in ast.walk(fn):
+                if isinstance(st, ast.Assign) and any(is_self_attr(t, "epsilon") for t in st.targets):
+                    sites.append((owner, fn, st))
+    if not sites:
+        raise AnalysisError("anchor vanished: no assignment of self.epsilon in the solver classes")
+    for owner, fn, st in sites:
+        I = Interp(ctx.ct, owner, {"config": ("obj", "config")})
+        try:
+            t = I.ev(st.value, {"self": ("self",)}, Frame(owner, owner.module, fn))
+        except Unsupported as e:
+            raise AnalysisError(f"{owner.name}.{fn.name}: self.epsilon = {ast.unparse(st.value)[:60]}: {e}") from e
+        ok = t == ("sym", "config.epsilon")
+        col.add("R8.10", f"{owner.name}.{fn.name}", owner.module.relpath, st.lineno, ok,
+                "self.epsilon is config.epsilon" if ok else
+                f"self.epsilon is `{ast.unparse(st.value)[:80]}` = {show_norm(t)[:120]}, not the configured epsilon itself: every threshold is then "
+                "computed from another tolerance than the one requested", text="epsilon source")
